@@ -806,9 +806,7 @@ def _sec_shard(plist):
 
 
 def sec_codec(ctx):
-    params = [c for c in R.universe_params(13)]
-    stride = ctx.pick(4, 1)
-    chosen = params[ctx.seed % stride::stride]
+    chosen = [c for c in R.universe_params(13)]
     st = ctx.pmap(_sec_shard, shard_round_robin(chosen, 64))
     st.notes["curves"] = len(chosen)
     return st
